@@ -1163,14 +1163,19 @@ def _mhn_path(res, agg, cell, path, where, facet, call, target, mode):
                 if o[0] != "accept":
                     return np.nan
                 return o[1]
-            d1 = (phi(b + h) - phi(b - h)) / (2 * h)
-            d2 = (phi(b + h / 2) - phi(b - h / 2)) / (h)
-            d3 = (phi(b + h / 4) - phi(b - h / 4)) / (h / 2)
-            res.transitions += 6
-            dphi = (16 * (4 * d3 - d2) / 3 - (4 * d2 - d1) / 3) / 15
+            if kind == "normal" and x == _f(first["loc"]) + _f(first["scale"]) * b:
+                dphi = _f(first["scale"])       # the returned value is the proposal itself: numpy's loc + scale*z
+                res.count("transform:identity")
+            else:
+                d1 = (phi(b + h) - phi(b - h)) / (2 * h)
+                d2 = (phi(b + h / 2) - phi(b - h / 2)) / (h)
+                d3 = (phi(b + h / 4) - phi(b - h / 4)) / (h / 2)
+                res.transitions += 6
+                dphi = (16 * (4 * d3 - d2) / 3 - (4 * d2 - d1) / 3) / 15
+                res.count("transform:differentiated")
             if not np.isfinite(dphi) or dphi == 0:
-                # neighbours rejected with probability one: use the one-sided information we have
-                raise HarnessError("cannot differentiate the proposal transform at %r" % b)
+                res.count("alphabet-point-without-derivative")     # a neighbour is rejected with probability one
+                continue
             if x <= 0:
                 agg.add("ModifiedHalfNormal", "support", fct, where, "a non-positive value %r was returned" % x)
                 continue
